@@ -57,7 +57,10 @@ pub struct FieldDef {
 pub enum VKind {
     Unit,
     Newtype(FTy),
+    /// `V { … }`, possibly without any field (`V {}` is not a unit variant: serde writes `{}` for it)
     Struct(Vec<FieldDef>),
+    /// `V()`: a tuple variant without elements (serde writes `[]`)
+    EmptyTuple,
 }
 #[derive(Debug, Clone, Serialize, Deserialize, PartialEq)]
 pub struct VariantDef {
@@ -244,15 +247,19 @@ pub fn normalise(types: &mut Vec<TypeDef>) {
                                 f.flatten = false;
                             }
                         }
+                        VKind::EmptyTuple => {
+                            // serde refuses tuple variants in internally tagged enums at compile time
+                            if *tagging == Tagging::Internal {
+                                v.kind = VKind::Unit
+                            }
+                        }
                     }
                 }
                 if variants.is_empty() {
                     variants.push(VariantDef { name: 0, rename: None, kind: VKind::Unit });
                 }
-                // an enum whose variants are all units is the UnitEnum shape: make sure one carries data
-                if variants.iter().all(|v| matches!(v.kind, VKind::Unit)) {
-                    variants[0].kind = VKind::Struct(vec![FieldDef { name: 0, ty: FTy::U32, rename: None, skip: false, default: false, skip_if_none: false, flatten: false, skip_if_empty: false }]);
-                }
+                // (an enum whose variants are all units may still carry `tag` / `content` / `untagged`: serde then writes
+                // `{"t":"V"}` or `null`, not the bare name)
                 // untagged: values must stay distinguishable for the round trip; not needed here (we only serialise)
                 if let Some(c) = rename_all {
                     *c %= CASES.len() as u8
@@ -391,6 +398,10 @@ pub fn codegen(types: &[TypeDef], value_seed: u64) -> (String, Vec<(usize, usize
                             let _ = write!(vs, "    {ren}{name} {{\n{}    }},\n", fields_src(fields).replace("    ", "        "));
                             let _ = write!(arms, "{k} => T{i}::{name} {{ {} }}, ", fields_gen(fields));
                         }
+                        VKind::EmptyTuple => {
+                            let _ = write!(vs, "    {ren}{name}(),\n");
+                            let _ = write!(arms, "{k} => T{i}::{name}(), ");
+                        }
                     }
                 }
                 let _ = write!(s, "{derive}{comp}{attr}enum T{i} {{\n{vs}}}\n");
@@ -435,12 +446,16 @@ fn report<T: Gen + Schema + Serialize + for<'de> Deserialize<'de>>(index: usize,
         rng.1 = true;
         let full: Vec<serde_json::Value> = (0..2).map(|_| serde_json::to_value(&T::gen(&mut rng)).unwrap_or(serde_json::json!({"__serde_error__": true}))).collect();
         // requiredness probe on the first full value: can serde read the object without key k?
+        // (through the text form, as on the wire: `from_value` has readings of its own, e.g. `[]` for a tuple variant
+        // without elements is handed to the visitor as a unit; and only when the complete object reads back at all)
         let mut omit_ok = serde_json::Map::new();
         if let Some(obj) = full[0].as_object() {
-            for k in obj.keys() {
-                let mut o = obj.clone();
-                o.remove(k);
-                omit_ok.insert(k.clone(), serde_json::Value::Bool(serde_json::from_value::<T>(serde_json::Value::Object(o)).is_ok()));
+            if serde_json::from_str::<T>(&full[0].to_string()).is_ok() {
+                for k in obj.keys() {
+                    let mut o = obj.clone();
+                    o.remove(k);
+                    omit_ok.insert(k.clone(), serde_json::Value::Bool(serde_json::from_str::<T>(&serde_json::Value::Object(o).to_string()).is_ok()));
+                }
             }
         }
         serde_json::json!({"t": index, "schema": schema, "values": values, "full": full, "omit_ok": omit_ok})
@@ -534,8 +549,11 @@ pub fn features(t: &TypeDef) -> BTreeSet<String> {
                         out.insert("newtype-variant".into());
                     }
                     VKind::Struct(fields) => {
-                        out.insert("struct-variant".into());
+                        out.insert(if fields.is_empty() { "empty-struct-variant".into() } else { "struct-variant".into() });
                         fields.iter().for_each(|f| field_features(f, &mut out));
+                    }
+                    VKind::EmptyTuple => {
+                        out.insert("empty-tuple-variant".into());
                     }
                 }
             }
@@ -567,7 +585,7 @@ fn field() -> impl Strategy<Value = FieldDef> {
 }
 fn typedef() -> impl Strategy<Value = TypeDef> {
     let case = prop::option::weighted(0.5, 0u8..8);
-    let variant = (0u8..6, prop::option::weighted(0.2, 0u8..6), prop_oneof![2 => Just(VKind::Unit), 2 => fty().prop_map(VKind::Newtype), 3 => vec(field(), 1..4).prop_map(VKind::Struct)]).prop_map(|(name, rename, kind)| VariantDef { name, rename, kind });
+    let variant = (0u8..6, prop::option::weighted(0.2, 0u8..6), prop_oneof![2 => Just(VKind::Unit), 2 => fty().prop_map(VKind::Newtype), 3 => vec(field(), 1..4).prop_map(VKind::Struct), 1 => Just(VKind::Struct(vec![])), 1 => Just(VKind::EmptyTuple)]).prop_map(|(name, rename, kind)| VariantDef { name, rename, kind });
     let tagging = prop_oneof![Just(Tagging::External), Just(Tagging::Internal), Just(Tagging::Adjacent), Just(Tagging::Untagged)];
     let body = prop_oneof![
         6 => (vec(field(), 0..6), case.clone()).prop_map(|(fields, rename_all)| Body::Struct { fields, rename_all }),
@@ -973,7 +991,11 @@ impl Property for C16 {
                 } else {
                     let required: BTreeSet<String> = schema["required"].as_array().map(|a| a.iter().filter_map(|x| x.as_str().map(|s| s.to_string())).collect()).unwrap_or_default();
                     for k in &keys {
-                        let omit_ok = r["omit_ok"][k].as_bool().unwrap_or(false);
+                        // no probe: the complete object does not read back (untagged enums inside, …) — no verdict on requiredness
+                        let Some(omit_ok) = r["omit_ok"][k].as_bool() else {
+                            obs.label("requiredness-not-probed");
+                            continue;
+                        };
                         let never_omitted = serde_keys_never_omitted(&values, &full, k);
                         let must_be_required = never_omitted && !omit_ok;
                         let may_be_optional = !never_omitted || omit_ok;
